@@ -134,7 +134,9 @@ def demoSpec : Spec :=
   [("a".toList, .leaf false), ("ro".toList, .leaf true),
    ("inner".toList, .nested false [("x".toList, .leaf false), ("deep".toList, .nested false [("z".toList, .leaf false)])]),
    ("echo".toList, .method true false), ("ping".toList, .method false false), ("touch".toList, .method false true),
-   ("boom".toList, .method true false)]
+   ("boom".toList, .method true false),
+   -- `#[repe(rename = "alias")] renamed` answers to "alias" only; `#[repe(skip)] hidden` is no endpoint
+   ("alias".toList, .leaf false)]
 
 
 end Repe.Router
